@@ -126,6 +126,11 @@ def run(tier, seed):
             o.extra['solver_traces_validated'] = len(scases)
             o.extra['solver_events'] = sum(len(c['trace']) for c in scases)
             o.extra['solver_model_drift'] = sum(1 for v in sv.values() if v.get('drift'))
+            ld = {}
+            for v in sv.values():
+                if v.get('logdrift', 'none') != 'none':
+                    ld[v['logdrift']] = ld.get(v['logdrift'], 0) + 1
+            o.extra['solver_log_drift'] = ld      # the event log no longer follows the descriptive machine (non-gating)
         verdicts, st, tr, _ = judge_batch(work / 'judge', 'Trace_Recursive', cases, per_shard_min=8, heap='3g')
         o.states += st
         o.transitions += tr
